@@ -126,6 +126,11 @@ def h_end_otherlang_star(parser, buf, mac, args, delim, pos):
 #   - or empty, if no language option found
 #
 def get_language_token(options):
+    #   option main=<language> names the main language
+    for opt in reversed(options):
+        if opt[0] == 'main' and opt[1] in language_map:
+            return [LanguageToken(0, lang=translate_lang(opt[1]),
+                                                hard=True, brk=True)]
     for opt in reversed(options):
         if opt[1] is None and opt[0] in language_map:
             return [LanguageToken(0, lang=translate_lang(opt[0]),
